@@ -61,7 +61,7 @@ Proof.
   - destruct (_ && _) in St; [|discriminate].
     destruct (buf s) as [|v b'] eqn:Bf.
     + destruct (Nat.eqb _ 0); inversion St; subst; cbn; rewrite F; reflexivity.
-    + destruct (sw s); inversion St; subst; cbn; rewrite F, <- app_assoc; reflexivity.
+    + inversion St; subst; cbn; rewrite F, <- app_assoc; reflexivity.
   - destruct (_ && _) in St; [|discriminate]. inversion St; subst; cbn. exact F.
   - destruct (_ && _) in St; [|discriminate]. inversion St; subst; cbn. exact F.
   - destruct (rx s); try discriminate. destruct (_ || _) in St; [|discriminate].
@@ -94,7 +94,7 @@ Proof.
   - destruct (_ && _) in St; [|discriminate].
     destruct (buf s) as [|v b'] eqn:Bf.
     + destruct (Nat.eqb _ 0); inversion St; subst; cbn; rewrite !app_nil_r; split; reflexivity.
-    + destruct (sw s); inversion St; subst; cbn; rewrite !app_nil_r; split; reflexivity.
+    + inversion St; subst; cbn; rewrite !app_nil_r; split; reflexivity.
   - destruct (_ && _) in St; [|discriminate]. inversion St; subst; cbn.
     rewrite !app_nil_r; split; reflexivity.
   - destruct (_ && _) in St; [|discriminate]. inversion St; subst; cbn.
@@ -126,7 +126,7 @@ Proof.
     destruct (poll_sends _ _ _ _ _) as [[[rem os] ws] ch].
     inversion St; subst; cbn. tauto.
   - destruct (_ && _) in St; [|discriminate].
-    destruct (buf s); [destruct (Nat.eqb _ 0)|destruct (sw s)]; inversion St; subst; cbn; tauto.
+    destruct (buf s); [destruct (Nat.eqb _ 0)|]; inversion St; subst; cbn; tauto.
   - destruct (_ && _) in St; [|discriminate]. inversion St; subst; cbn. tauto.
   - destruct (_ && _) in St; [|discriminate]. inversion St; subst; cbn. tauto.
   - destruct (rx s) eqn:E; try discriminate. destruct (_ || _) in St; [|discriminate].
@@ -190,7 +190,7 @@ Proof.
       * split; [discriminate|]. intros [_ [C|A]].
         -- apply CL in C. destruct (rx s) eqn:RXS; [exfalso; apply C; reflexivity|discriminate W|discriminate W].
         -- apply count_alive_zero in A. destruct (rx s) eqn:RXS; [rewrite A in W; discriminate W|discriminate W|discriminate W].
-    + destruct (sw s); inversion St; subst; clear St;
+    + inversion St; subst; clear St;
         (split; [intros rs fin ws r E; discriminate|]); intros r ws E; inversion E; subst;
         (split; [discriminate|]); intros [Eq _]; rewrite F in Eq;
         apply (f_equal (@length item)) in Eq; rewrite app_length in Eq; cbn in Eq; lia.
